@@ -89,9 +89,10 @@ fn other_values() -> Vec<V> {
 }
 
 fn cases(thorough: bool) -> Vec<Case> {
-    let unary_fns = ["to_upper", "to_lower", "url_decode", "parse_int", "parse_float", "parse_boolean", "parse_string", "count", "json_parse"];
+    let unary_fns = ["to_upper", "to_lower", "url_decode", "parse_int", "parse_float", "parse_boolean", "parse_string", "count", "json_parse", "parse_char"];
     let mut vals: Vec<V> = strings().into_iter().map(s).collect();
     vals.extend(other_values());
+    vals.extend(vec![i(0), i(9), i(10), s("x"), s("7")]);
     let mut out = vec![];
     let qa = || Arg::Q(false, vec![key("a")]);
     for fname in unary_fns {
@@ -292,6 +293,26 @@ pub fn run(tier: &str) -> i32 {
     rep.states += res.done as u64;
     rep.transitions += res.done as u64;
     let mut acc = res.acc;
+
+    // ---- parse_char as documented: the character compares with one-character string literals
+    {
+        let mut pc = 0u64;
+        for (val, ch) in [(i(1), "1"), (i(0), "0"), (i(9), "9"), (s("x"), "x"), (s("7"), "7"), (s(" "), " "), (s("Z"), "Z")] {
+            for (form, lets, call) in [("query", String::new(), "parse_char(a)".to_string()), ("variable", "let v = a\n".to_string(), "parse_char(%v)".to_string())] {
+                let dj = m(vec![("a", val.clone())]).json();
+                let rules = format!("{}rule same {{\n  let c = {}\n  %c == '{}'\n}}\nrule other {{\n  let c = {}\n  %c == 'Q'\n}}\nrule ne {{\n  let c = {}\n  %c != 'Q'\n}}\nrule listed {{\n  let c = {}\n  %c in ['Q', '{}']\n}}\n", lets, call, ch, call, call, call, ch);
+                let o = crate::impl_::lib_run(&rules, &dj);
+                acc.traces += 1;
+                pc += 1;
+                let want = "file=FAIL same=PASS other=FAIL ne=PASS listed=PASS";
+                if o.short() != want {
+                    acc.violate(&format!("parse_char-not-comparable-with-string:{}", form), format!("`{}` on {}: the character does not compare with one-character strings as documented (`%converted == '1'`): {}", call, dj, o.short()), json!({"kind":"lib","rules":rules,"data":dj,"expected":want,"observed":o.short()}));
+                }
+            }
+        }
+        rep.states += pc;
+        rep.transitions += pc;
+    }
 
     // ---- count(q) over every query of the plain alphabet x documents
     let qs = queries_plain(2);
